@@ -105,6 +105,8 @@ pub fn state_texts(uni: &Universe) -> (Vec<String>, Vec<String>) {
             }
         }
         t.push_str("    at zz.Unknown.x(U.java:3)\n    ... 2 more\n");
+        // an indented cause line with a known class, a frame with two colons, a known throwable with trailing blanks
+        t.push_str(&format!("  Caused by: {}: indented\n\tCaused by: {}\n    at {}.m(F.java:2:5)\n{}  \n", c, c, c, c));
         t.push_str(&format!("\tSuppressed: {}: s\n\t\tat {}.x(F.java:1)\nSuppressed: {}\n[CIRCULAR REFERENCE: {}: c]\nWrapped by: {}: w\n", c, c, c, c, c));
     }
     texts.push(t);
